@@ -2,6 +2,6 @@
 # usage: tryseed.sh <worktree-or-patched-repo-dir> <ID> [percent]   -- run a property's quick check against another tree without touching evidence/replays
 D=$1; ID=$2; PC=${3:-100}
 T=$(mktemp -d /tmp/tryseed-XXXX)
-VERIF_REPO=$D VERIF_EVIDENCE_DIR=$T/ev VERIF_REPLAYS_DIR=$T/rp VERIF_QUICK_PERCENT=$PC /verif/check $ID --tier quick 2>&1 | grep -v "^KNOWN-FINDING" | tail -6 | cut -c1-400
+VERIF_REPO=$D VERIF_EVIDENCE_DIR=$T/ev VERIF_REPLAYS_DIR=$T/rp VERIF_QUICK_PERCENT=$PC /verif/check $ID --tier quick 2>&1 | grep -a -v "^KNOWN-FINDING" | tail -6 | cut -c1-400
 echo "exit=${PIPESTATUS[0]}"
 rm -rf $T
